@@ -166,6 +166,52 @@ def check_map_case(ctx: Ctx, c: Dict[str, Any], variant: int = 0) -> None:
             err = max_err(o, qexp)
             if err > tol:
                 report(op, err, tol)
+    # 3b. Cube.from_grid with the convention named by the cube axes of the case, whatever the grid's own flag is
+    if g2 is None and "world" in (a, b) and ({a, b} & {"cube", "cube_corners"}):
+        from deepali.core.cube import Cube
+
+        flag = "cube_corners" in (a, b)
+        ac_before = g.align_corners()
+        pin = torch.tensor(fl(P), dtype=torch.float64)
+        qexp = torch.tensor(fl(Q), dtype=torch.float64)
+        for how, mk in (("explicit", lambda: Cube.from_grid(g, align_corners=flag)), ("derived", lambda: Cube.from_grid(g.align_corners(flag)))):
+            cube = guarded("Cube.from_grid", mk, how=how)
+            if cube is None:
+                continue
+            fa, fb = ("cube", "world") if a != "world" else ("world", "cube")
+            o = guarded("Cube.from_grid.transform", lambda: cube.transform_vectors(pin, fa, fb) if vec else cube.transform_points(pin, fa, fb), how=how)
+            if o is not None:
+                err = max_err(o, qexp)
+                if err > bound(scale, F32):
+                    report("Cube.from_grid(align_corners=%s).transform_%s" % (flag, "vectors" if vec else "points"), err, bound(scale, F32), how=how)
+        if g.align_corners() != ac_before:
+            ctx.violation(dict(op="Cube.from_grid", what="mutates", **sig0), "Cube.from_grid changed the grid's align_corners flag", c)
+    # 4. the homogeneous POINT matrix of the case applied through core.linalg / core.affine: to points with vectors=False,
+    #    to displacements with vectors=True (the translation column must then be ignored)
+    from deepali.core import affine as A_
+    from deepali.core.linalg import homogeneous_transform
+
+    Tp = guarded("Grid.transform", lambda: g.transform(a, b, to_grid=g2, vectors=False), role="point-matrix")
+    if Tp is not None:
+        pin = torch.tensor(fl(P), dtype=torch.float64)
+        qexp = torch.tensor(fl(Q), dtype=torch.float64)
+        Tp = Tp.double()
+        fns = [("homogeneous_transform", lambda: homogeneous_transform(Tp, pin, vectors=vec)),
+               ("affine.apply_transform", lambda: A_.apply_transform(Tp, pin, vectors=vec)),
+               ("affine.transform_vectors" if vec else "affine.transform_points", lambda: (A_.transform_vectors if vec else A_.transform_points)(Tp, pin)),
+               ("homogeneous_transform[batched]", lambda: homogeneous_transform(Tp.unsqueeze(0), pin.unsqueeze(0), vectors=vec).squeeze(0))]
+        for op, fn in fns:
+            o = guarded(op, fn)
+            if o is None:
+                continue
+            if tuple(o.shape) != tuple(qexp.shape):
+                report(op, float("inf"), 0.0, shape=list(o.shape))
+                continue
+            err = max_err(o, qexp)
+            if err > bound(scale, F32):
+                report(op, err, bound(scale, F32))
+        if max_err(pin, torch.tensor(fl(P), dtype=torch.float64)) > 0:
+            ctx.violation(dict(op="homogeneous_transform", what="mutates", **sig0), "applying the matrix changed the caller's points", c)
     ctx.count(key=(json.dumps(c["g"], sort_keys=True), a, b, vec, json.dumps(c["g2"], sort_keys=True)),
               nontrivial=(a != b or g2 is not None))
 
